@@ -68,6 +68,113 @@ def strstr_rule(prog, run, rid, hay_len=5, needle_len=3):
            witness=bad or "%d pairs" % ncase, what="" if bad is None else "a substring that is there is not found (or one that is not there is): " + bad)
 
 
+def string_query_rule(prog, run, rid, name, oracle, text, maxlen=3, alpha=(97, 98)):
+    """a SimpleString query taking another string, folded on every (string, argument) pair over `alpha` up to `maxlen`: textbook answer,
+    reads inside the two buffers only (bytes behind a terminator and in front of a buffer are absent). Shared with C03 (the
+    case-insensitive string checks decide through equalsNoCase / containsNoCase)."""
+    INL5 = {g.qn for g in prog.functions.values() if g.qn.startswith(SS + "::")}
+
+    def strings(maxlen_, alpha_):
+        for L in range(maxlen_ + 1):
+            for t in itertools.product(alpha_, repeat=L):
+                yield list(t)
+
+    def put(env, base, vals):
+        for i_, v_ in enumerate(list(vals) + [0]):
+            env["%s[%d]" % (base, i_)] = v_
+    f = prog.fn(SS + "::" + name)
+    run.analysed(f)
+    on = f.params[0]["name"]
+    bad, ncase = None, 0
+    for a_ in strings(maxlen, alpha):
+        for b_ in strings(maxlen, alpha):
+            ncase += 1
+            env = {"buffer_": ("ptr", "A", 0), "bufferSize_": len(a_) + 1, on + ".buffer_": ("ptr", "B", 0), on + ".bufferSize_": len(b_) + 1}
+            put(env, "A", a_)
+            put(env, "B", b_)
+            ta, tb = "".join(map(chr, a_)), "".join(map(chr, b_))
+            # (string temporaries - the lower-case copies of the case-insensitive queries - are string values; a query written
+            # in place reads the two buffers)
+            sh_ = string_hooks()
+            env[on] = 222
+            qh = {SS + "::lowerCase": lambda o=None, *a_, ta=ta, tb=tb: ("str", (tb if o == 222 else ta).lower()), "operator==": sh_["operator=="], "operator!=": sh_["operator!="],
+                  SS + "::contains": lambda o=None, x=None, *a_: (1 if isinstance(o, tuple) and isinstance(x, tuple) and x[1] in o[1] else 0) if isinstance(o, tuple) else None}
+            ev = Evaluator(prog, f, env=env, calls={k_: v_ for k_, v_ in qh.items() if k_ != f.qn})
+            ev.pass_object = True
+            ev.optional_stubs = set(ev.calls)
+            ev.inline = INL5 - set(ev.calls)
+            try:
+                ev.run_blocks(f.entry, max_steps=6000)
+                r = getattr(ev, "ret", None)
+                if isinstance(r, tuple) and r and r[0] == "unknown":
+                    raise Unknown(r[1])
+                if isinstance(r, bool):
+                    r = int(r)
+                why = "" if r == oracle(ta, tb) else "folds to %s, expected %s" % (r, oracle(ta, tb))
+            except Unknown as u:
+                oob = [k_ for k_ in getattr(ev, "absent_reads", []) if re.match(r"^[AB]\[", k_)] or re.findall(r"(?:^|[ :])([AB]\[-?\d+\])$", str(u))
+                if not oob:
+                    raise AnalysisBroken("%s.%s: %s cannot be folded on (%r, %r): %s" % (run.pid, rid, name, ta, tb, u))
+                why = "reads %s, outside the string (behind its terminator or before its start)" % oob[0]
+            if why and bad is None:
+                bad = '"%s".%s("%s"): %s' % (ta, name, tb, why)
+    run.ob(rid, "%s folded on %d (string, argument) pairs over {a,b} up to length %d: %s" % (name, ncase, maxlen, text), f.site, bad is None, witness=bad or "%d pairs" % ncase, what=bad or "")
+
+
+def printable_text_rule(prog, run, rid):
+    """SimpleString::printable() folded for every single byte value and for byte pairs: each byte is shown as itself, as its short
+    escape, or as the hex escape of ITS OWN value, so that two different strings never share a printable form because of the escaping.
+    Shared with C14 (failure messages show string operands through printable())."""
+    pr = prog.fn(SS + "::printable")
+    run.analysed(pr)
+    INL = {g.qn for g in prog.functions.values() if g.qn.startswith(SS + "::")}
+    def printable_text(chars):
+        env = {"buffer_": ("ptr", "S", 0), "bufferSize_": len(chars) + 1, "result.buffer_": ("ptr", "R", 0)}
+        for i_, c_ in enumerate(list(chars) + [0]):
+            env["S[%d]" % i_] = c_
+        sh_ = string_hooks()
+        hooks = {SS + "::setInternalBufferToNewBuffer": lambda *a_: 0, "StringFromFormat": sh_["StringFromFormat"],
+                 SS + "::asCharString": lambda *a_: a_[0] if a_ and isinstance(a_[0], tuple) and a_[0][0] == "str" else None}
+        e2 = Evaluator(prog, pr, env=env, calls=hooks)
+        e2.pass_object = True
+        e2.inline = INL - set(hooks)
+        e2.run_blocks(pr.entry, max_steps=8000)
+        out, i_ = [], 0
+        while e2.env.get("R[%d]" % i_) not in (None, 0):
+            out.append(e2.env["R[%d]" % i_] & 0xFF)
+            i_ += 1
+        if e2.env.get("R[%d]" % i_) != 0:
+            raise Unknown("the rendering is not terminated")
+        return bytes(out)
+
+    def reference(chars):
+        alts = [b""]
+        for c_ in chars:
+            u = c_ & 0xFF
+            if 7 <= u <= 13:
+                opts = [("\\" + "abtnvfr"[u - 7]).encode()]
+            elif u < 32 or u == 127:
+                opts = [("\\x%02X" % u).encode()]
+            elif u >= 128:
+                opts = [bytes([u]), ("\\x%02X" % u).encode()]       # (a high byte is a control char where char is signed, a plain one where it is not)
+            else:
+                opts = [bytes([u])]
+            alts = [a_ + o_ for a_ in alts for o_ in opts]
+        return alts
+    badt, nt = None, 0
+    try:
+        for chars in [[c_] for c_ in range(-128, 128) if c_ != 0] + [[99, -23], [99, -24], [-23, -24], [1, -1], [31, 127]]:
+            nt += 1
+            got = printable_text(chars)
+            if got not in reference(chars) and badt is None:
+                badt = "bytes %s are rendered as %r, expected %s" % ([c_ & 0xFF for c_ in chars], got.decode("latin-1"), " or ".join(repr(r_.decode("latin-1")) for r_ in reference(chars)))
+    except Unknown as u:
+        raise AnalysisBroken("%s.%s: the text printable() writes cannot be folded: %s" % (run.pid, rid, u))
+    run.ob(rid, "printable() text folded for every single byte value and for byte pairs: each byte is shown as itself, as its short escape or as the hex escape of its own value", pr.site, badt is None,
+           witness=badt or "%d strings" % nt, what="" if badt is None else "two different operands can be shown as the same text: " + badt)
+
+
+
 def replace_rule(prog, run, rid, alphabet="ab", patterns=("", "a", "b", "aa", "ab", "ba", "bb"), replacements=("", "a", "ab", "bbb"), maxlen=4):
     """SimpleString::replace(const char*, const char*) folded over every string of the alphabet up to maxlen x patterns x
     replacements against Python's non-overlapping left-to-right replacement (shared with C16: the XML escaper is built on it)"""
@@ -491,6 +598,8 @@ def check(ctx, run):
         why = "cannot fold: %s" % u
     run.ob("R3", "the empty string: one byte reserved, terminator at index 0", pr.site, not why, what=why)
 
+    printable_text_rule(prog, run, "R3")
+
     # ---------------- R4 ----------------------------------------------------
     cb = prog.fn(SS + "::copyToBuffer")
     run.analysed(cb)
@@ -654,41 +763,13 @@ def check(ctx, run):
     from .C14 import masked_bits_rule
     masked_bits_rule(prog, run, "R5", thorough=ctx.thorough)
 
-    # the string's own queries taking another string: textbook answers, reads inside the two buffers only
-    def query_rule(name, oracle, text, maxlen=3):
-        f = prog.fn(SS + "::" + name)
-        run.analysed(f)
-        on = f.params[0]["name"]
-        bad, ncase = None, 0
-        for a_ in strings(maxlen, (97, 98)):
-            for b_ in strings(maxlen, (97, 98)):
-                ncase += 1
-                env = {"buffer_": ("ptr", "A", 0), "bufferSize_": len(a_) + 1, on + ".buffer_": ("ptr", "B", 0), on + ".bufferSize_": len(b_) + 1}
-                put(env, "A", a_)
-                put(env, "B", b_)
-                ta, tb = "".join(map(chr, a_)), "".join(map(chr, b_))
-                ev = Evaluator(prog, f, env=env)
-                ev.inline = INL5
-                try:
-                    ev.run_blocks(f.entry, max_steps=6000)
-                    r = getattr(ev, "ret", None)
-                    if isinstance(r, tuple) and r and r[0] == "unknown":
-                        raise Unknown(r[1])
-                    if isinstance(r, bool):
-                        r = int(r)
-                    why = "" if r == oracle(ta, tb) else "folds to %s, expected %s" % (r, oracle(ta, tb))
-                except Unknown as u:
-                    oob = [k_ for k_ in getattr(ev, "absent_reads", []) if re.match(r"^[AB]\[", k_)] or re.findall(r"(?:^|[ :])([AB]\[-?\d+\])$", str(u))
-                    if not oob:
-                        raise AnalysisBroken("C13.R5: %s cannot be folded on (%r, %r): %s" % (name, ta, tb, u))
-                    why = "reads %s, outside the string (behind its terminator or before its start)" % oob[0]
-                if why and bad is None:
-                    bad = '"%s".%s("%s"): %s' % (ta, name, tb, why)
-        run.ob("R5", "%s folded on %d (string, argument) pairs over {a,b} up to length %d: %s" % (name, ncase, maxlen, text), f.site, bad is None, witness=bad or "%d pairs" % ncase, what=bad or "")
+    query_rule = lambda name, oracle, text, **kw: string_query_rule(prog, run, "R5", name, oracle, text, **kw)
     query_rule("startsWith", lambda a, b: 1 if a.startswith(b) else 0, "true iff the argument is a prefix; nothing read outside the two strings")
     query_rule("endsWith", lambda a, b: 1 if a.endswith(b) else 0, "true iff the argument is a suffix (a longer argument never is); nothing read outside the two strings")
     query_rule("contains", lambda a, b: 1 if b in a else 0, "true iff the argument occurs")
 
+    query_rule("equalsNoCase", lambda a, b: 1 if a.lower() == b.lower() else 0, "true iff the two strings are equal up to the case of their letters (a proper prefix is not equal)", maxlen=2, alpha=(97, 65, 98))
+    query_rule("containsNoCase", lambda a, b: 1 if b.lower() in a.lower() else 0, "true iff the argument occurs up to the case of the letters", maxlen=2, alpha=(97, 65, 98))
     query_rule("count", lambda a, b: sum(1 for i_ in range(len(a)) if a[i_:].startswith(b)), "the number of positions at which the argument occurs")
 
     def cpy_cases(f):
@@ -718,7 +799,9 @@ def check(ctx, run):
     def ato_cases(signed):
         def gen(f):
             texts = ["", "0", "7", "12", "120", " 12", "\t\n 9", "12x", "x", "1 2", "-", "+", "-12", "+5", " -3x", "--1", "-0", "4294967295" if not signed else "2147483647", "\xE9" + "1"]
-            for t in texts:
+            # and every string up to length 4 over {space, -, +, 1, 9, x}: where white space and a sign may stand
+            texts += ["".join(c_) for L_ in range(1, 5) for c_ in itertools.product(" -+1x" + ("9" if L_ < 4 else ""), repeat=L_)]
+            for t in dict.fromkeys(texts):
                 vals = [ord(ch) - 256 if ord(ch) > 127 else ord(ch) for ch in t]
                 env = {f.params[0]["name"]: ("ptr", "A", 0)}
                 put(env, "A", vals)
